@@ -168,6 +168,9 @@ def owner1(ctx, prog, cfg):
                   "be leaked or destroyed twice" % ([f["name"] + ": " + f["ty"] for f in fields], "a manual Drop impl" if ii.get("has_dtor") else "no Drop impl"),
                   "one field `inner: CircularBuffer<N, T>`, no Drop impl", cfg)
     c05.drn1_de(ctx, prog, cfg)
+    from .. import drainrules
+
+    drainrules.drnview1(ctx, prog, cfg, "OWNER1")
     # From<[T; M]>
     f = ctx.need_fn(prog, "<CircularBuffer<N, T> as From<[T; M]>>::from", "OWNER1")
     if f is not None:
